@@ -141,7 +141,8 @@ PROPS = {
     },
     'C13': {
         'level': 'other',
-        'extra': [('module threading', extras.module_threading_check), ('pyvc-own(copy-before-write)', extras.cow_check)],
+        'extra': [('module threading', extras.module_threading_check), ('pyvc-own(copy-before-write)', extras.cow_check),
+                  ('pre_process coverage', extras.preprocess_coverage_check)],
         'needs_contracts': False,
         'assumptions': ['idempotence / option-independence of the in-place pre-processing passes (automatic tagging, implied '
                         'extension marker, COMPONENTS OF, default conversion) is NOT under contract; known defect 12 (ENUMERATED '
